@@ -258,8 +258,8 @@ M('M19.4', 'C19', RUNPY, "            lognum = maxlogid + 1", "            lognu
   'rotation overwrites the newest rotated log (needs >= 2 restarts)')
 M('M19.5', 'C19', LOGPY, "            thermo_headers = [header for header in thermo_headers if header < i]\n", "",
   'revert 77236b9: log ending right after the memory line')
-M('M19.6', 'C19', LOGPY, "                                float_precision='round_trip')\n\n        # Reset file pointer\n        log_info.seek(0)\n",
-  "                                float_precision='round_trip')\n\n        # Reset file pointer\n",
+M('M19.6', 'C19', LOGPY, "                                encoding_errors='replace')\n\n        # Reset file pointer\n        log_info.seek(0)\n\n        # Append",
+  "                                encoding_errors='replace')\n\n        # Reset file pointer\n\n        # Append",
   'stream not rewound after a thermo table (needs >= 2 blocks)')
 M('M19.7', 'C19', LOGPY, "if line[:8] == 'LAMMPS (' and self.lammps_version is None:", "if line[:8] == 'LAMMPS (':",
   'version taken from the LAST banner: allowed by the statement, which does not say which', expect='clean')
@@ -269,8 +269,8 @@ M('M19.9', 'C19', LOGPY, "thermo[thermo.Step > merged_df.Step.max()]", "thermo[t
   'flatten first keeps the boundary step twice (needs overlapping runs)')
 M('M19.10', 'C19', LOGPY, "        if append is False:\n            self.__simulations = []", "        if append is None:\n            self.__simulations = []",
   'append=False no longer replaces')
-M('M19.11', 'C19', LOGPY, "                                skip_blank_lines=True,\n                                float_precision='round_trip')",
-  "                                skip_blank_lines=True)", 'revert d574e9e: default float converter (needs small values in long formats)')
+M('M19.11', 'C19', LOGPY, "                                skip_blank_lines=True,\n                                float_precision='round_trip',",
+  "                                skip_blank_lines=True,", 'revert d574e9e: default float converter (needs small values in long formats)')
 M('M19.12', 'C19', LOGPY, "            if not last_line_complete:\n                i -= 1", "            if False:\n                i -= 1",
   'revert ae0f354: in-flight last line read as a row')
 M('M19.13', 'C19', LOGPY, "                    if len(performance_footers) < len(performance_headers):", "                    if True:",
@@ -299,6 +299,12 @@ M('M19.24', 'C19', LOGPY, "        for sim in simulations[1:]:\n            ther
   'flatten merges at most three runs')
 M('M19.25', 'C19', RUNPY, "    if screen:\n        log.read(output.stdout)", "    if screen:\n        log.read(output.stdout, append=lognum == 0)",
   'screen output of a restart replaces the history instead of extending it')
+
+M('M19.26', 'C19', LOGPY, "line = line.decode('UTF-8', errors='replace')", "line = line.decode('UTF-8')",
+  'revert 6c40380 (line scan): a log cut inside a multi-byte character cannot be read')
+M('M19.27', 'C19', LOGPY, "                                float_precision='round_trip',\n                                encoding_errors='replace')",
+  "                                float_precision='round_trip')",
+  'revert 6c40380 (thermo table): pandas decodes strictly and fails on the torn character at the end of the file')
 
 def _flex(old):
     """Regex for `old` that tolerates trailing blanks and whitespace-only lines."""
